@@ -67,9 +67,16 @@ func (pg *PERIOGroup) newTicker(wg *sync.WaitGroup, evtCh chan Event) error {
 				logger.PerioLog.Debugf("ticker[%v] timeout", period)
 				// If the UPF had terminating, the evtCh would be nil
 				if evtCh != nil {
-					evtCh <- Event{
+					// The server may be waiting in stopTicker() instead of
+					// draining evtCh: do not block on a full queue then.
+					select {
+					case evtCh <- Event{
 						eType:  TYPE_PERIO_TIMEOUT,
 						period: period,
+					}:
+					case <-pg.stopCh:
+						logger.PerioLog.Infof("ticker[%v] Stopped", period)
+						return
 					}
 				}
 			case <-pg.stopCh:
